@@ -408,4 +408,32 @@ def clientHelloCheck (gm : Bool) (offered : List Nat) (vers suite comp : Nat) : 
   else if comp != 0 then .reject .unexpectedMessage
   else .accept
 
+-- version limits configured on the server (`Config.MinVersion` / `Config.MaxVersion`) -------------------------------------
+
+/-- `Config.mutualVersion` for arbitrary limits `lo` = `minVersion()`, `hi` = `maxVersion()`: the order of the code —
+    below the minimum: refused; inside the gap between GMSSL and SSL 3.0: refused; above the maximum: the maximum -/
+def mutualVersionLim (lo hi v : Nat) : Option Nat :=
+  if v < lo then none
+  else if versionGMSSL < v ∧ v < versionSSL30 then none
+  else if v > hi then some hi
+  else some v
+
+/-- `minVersion()` / `maxVersion()`: 0 means the package default -/
+def cfgMin (m : Nat) : Nat := if m = 0 then versionGMSSL else m
+def cfgMax (m : Nat) : Nat := if m = 0 then versionTLS12 else m
+
+def dispatchLim (lo hi : Nat) : Mode → Nat → Path
+  | .gmOnly, v => match mutualVersionLim lo hi v with | none => .reject | some w => .gm w
+  | .tlsOnly, v => match mutualVersionLim lo hi v with | none => .reject | some w => .tls w
+  | .auto, v =>
+      if v = versionGMSSL then (match mutualVersionLim lo hi v with | none => .reject | some w => .gm w)
+      else if versionSSL30 ≤ v ∧ v ≤ versionTLS12 then (match mutualVersionLim lo hi v with | none => .reject | some w => .tls w)
+      else .reject
+
+def helloAnswerLim (lo hi : Nat) (mode : Mode) (elliptic : Bool) (vers : Nat) (suites comps : List Nat) : Answer :=
+  match dispatchLim lo hi mode vers with
+  | .reject => .reject
+  | .gm w => answerOn (gmSuites.contains ·) w vers suites comps
+  | .tls w => answerOn (tlsSuiteOk w elliptic) w vers suites comps
+
 end Model.Handshake
